@@ -77,6 +77,7 @@ var registry = map[string]*PropDef{
 			{Pkg: "internal/store", Func: "VP_C06_IsDir", Quick: map[string]int{"entries": 3, "depth": 2, "complen": 2}, Thorough: map[string]int{"entries": 4, "depth": 2, "complen": 2}, Share: 1.00},
 			{Pkg: "internal/store", Func: "VP_C06_ByDir", Quick: map[string]int{"entries": 3, "depth": 2, "complen": 2}, Thorough: map[string]int{"entries": 4, "depth": 2, "complen": 2}, Share: 1.00},
 			{Pkg: "internal/store", Func: "VP_C06_WriteRead", Quick: map[string]int{"entries": 2, "depth": 2, "complen": 2}, Thorough: map[string]int{"entries": 5, "depth": 2, "complen": 2}, Share: 1.00},
+			{Pkg: "internal/store", Func: "VP_C06_Big", Quick: map[string]int{"bigentries": 170}, Thorough: map[string]int{"bigentries": 2600, "maxBackEdges": 40000}, Share: 1.00},
 			{Pkg: "internal/store", Func: "VP_C06_Update", Quick: map[string]int{"entries": 2, "depth": 2, "complen": 2}, Thorough: map[string]int{"entries": 4, "depth": 2, "complen": 2}, Share: 1.00},
 			{Pkg: "internal/store", Func: "VP_C06_Delete", Quick: map[string]int{"entries": 2, "depth": 2, "complen": 2}, Thorough: map[string]int{"entries": 4, "depth": 2, "complen": 2}, Share: 1.00},
 		},
